@@ -803,6 +803,94 @@ theorem global_ops_keep (c : Clock) (k : Nat) (s : Int) (h : AllOnEvent c) :
     obtain ⟨y, _, rfl⟩ := hx
     rfl
 
+/-! ### 7. Histories: repeated requests, answers that change over time (lessons 12–13) -/
+
+theorem mem_moveToEnd (c : Clock) (ids : List Nat) (i : Nat) :
+    i ∈ (moveToEnd c ids).snooze ↔ i ∈ c.snooze ∨ i ∈ ids := by
+  unfold moveToEnd
+  split
+  · rename_i h; simp at h; subst h; simp
+  · simp only [List.mem_append, List.mem_filter]
+    constructor
+    · rintro (h | ⟨h, _⟩)
+      · exact Or.inl h
+      · exact Or.inr h
+    · rintro (h | h)
+      · exact Or.inl h
+      · by_cases hc : i ∈ c.snooze
+        · exact Or.inl hc
+        · exact Or.inr ⟨h, by simpa using hc⟩
+
+/-- the same request again – verbatim, before the clock update – leaves the clock literally unchanged -/
+theorem moveToEnd_repeat (c : Clock) (ids : List Nat) : moveToEnd (moveToEnd c ids) ids = moveToEnd c ids := by
+  by_cases he : ids.isEmpty = true
+  · simp [moveToEnd, he]
+  · have h1 : moveToEnd c ids = { c with snooze := c.snooze ++ ids.filter (fun i => !c.snooze.contains i) } := by
+      simp [moveToEnd, he]
+    rw [h1]
+    simp only [moveToEnd, he, Bool.false_eq_true, ↓reduceIte]
+    congr 1
+    have : ids.filter (fun i => !(c.snooze ++ ids.filter (fun i => !c.snooze.contains i)).contains i) = [] := by
+      apply List.filter_eq_nil_iff.mpr
+      intro a ha
+      by_cases hc : a ∈ c.snooze
+      · simp [hc]
+      · simp [hc, ha]
+    rw [this]; simp
+
+/-- the update looks only at the answers the modifiers give NOW, and only at those for the simulants it updates:
+nothing from an earlier update (an earlier answer, list or result) can enter – "values changing over time" -/
+theorem stepForward_congr (c : Clock) (mods mods' : Nat → List (Option Nat))
+    (h : ∀ s ∈ c.sims, needsUpdate c (c.now + c.step) s = true → mods s.id = mods' s.id) :
+    stepForward c mods = stepForward c mods' := by
+  have hs : c.sims.map (updSim c (c.now + c.step) mods) = c.sims.map (updSim c (c.now + c.step) mods') := by
+    apply List.map_congr_left
+    intro s hs
+    unfold updSim
+    by_cases hn : needsUpdate c (c.now + c.step) s = true
+    · simp only [hn, ↓reduceIte]; rw [h s hs hn]
+    · simp [hn]
+  unfold stepForward
+  simp only [hs]
+
+/-- a request repeated AFTER its simulants were parked (verbatim or not, by whoever, in whatever index kind) changes
+nobody's next-event time at the following update, as long as that update lands before the parking time -/
+theorem repeat_request_same_next (c : Clock) (ids : List Nat) (mods : Nat → List (Option Nat))
+    (hp : ∀ i ∈ ids, Parked c i) (hland : c.now + c.step < c.stop + c.minStep) :
+    (stepForward (moveToEnd c ids) mods).sims.map (fun s => (s.id, s.next)) =
+      (stepForward c mods).sims.map (fun s => (s.id, s.next)) := by
+  have hnow : (moveToEnd c ids).now = c.now ∧ (moveToEnd c ids).step = c.step ∧ (moveToEnd c ids).stop = c.stop ∧
+      (moveToEnd c ids).minStep = c.minStep ∧ (moveToEnd c ids).stdStep = c.stdStep := by
+    unfold moveToEnd; split <;> simp
+  rw [stepForward_sims, stepForward_sims, moveToEnd_sims, hnow.1, hnow.2.1, List.map_map, List.map_map]
+  apply List.map_congr_left
+  intro s hs
+  simp only [Function.comp, updSim_id, Prod.mk.injEq, true_and]
+  by_cases hi : s.id ∈ ids
+  · -- parked and asked again: re-parked at the same time
+    have hnext := hp s.id hi s hs rfl
+    have hmem : s.id ∈ (moveToEnd c ids).snooze := (mem_moveToEnd c ids s.id).mpr (Or.inr hi)
+    have h1 : (updSim (moveToEnd c ids) (c.now + c.step) mods s).next = c.stop + c.minStep := by
+      unfold updSim
+      simp only [needsUpdate, List.contains_eq_mem, hmem, decide_true, Bool.or_true, ↓reduceIte, hnow.2.2.1, hnow.2.2.2.1]
+      omega
+    have h2 : (updSim c (c.now + c.step) mods s).next = c.stop + c.minStep := by
+      unfold updSim
+      by_cases hc : s.id ∈ c.snooze
+      · simp only [needsUpdate, List.contains_eq_mem, hc, decide_true, Bool.or_true, ↓reduceIte]; omega
+      · have : needsUpdate c (c.now + c.step) s = false := by
+          simp only [needsUpdate, due, Bool.or_eq_false_iff, decide_eq_false_iff_not]
+          exact ⟨by omega, by simpa using hc⟩
+        simp [this, hnext]
+    rw [h1, h2]
+  · -- not named by the repeated request: treated exactly as without it
+    have hiff : s.id ∈ (moveToEnd c ids).snooze ↔ s.id ∈ c.snooze := by
+      rw [mem_moveToEnd]; constructor
+      · rintro (h | h); exact h; exact absurd h hi
+      · exact Or.inl
+    unfold updSim
+    simp only [needsUpdate, List.contains_eq_mem, hiff, hnow.2.2.1, hnow.2.2.2.1, hnow.2.2.2.2]
+
 /-! ### Non-vacuity: the hypotheses are inhabited, the statements bite -/
 
 /-- three simulants, minimum step 24 h, no standard step, one modifier asking 72 / nothing / 50 hours -/
@@ -843,6 +931,15 @@ example : ¬ (∀ x ∈ (restoreStep (iterate (overrideStep demo2 36) [] (fun i 
 /-- empty population: the override is undone -/
 example : (interactiveIterate (initSims (configure 0 96 24 0) 0 (fun _ => [])) (some 7) [] (fun _ => [])).step = 24 := by decide
 example : active (refreshGlobal (create (stepBackward (configure 0 192 48 72)) 2)) = [0, 1] := by decide
+/-- lock-step simulants whose modifier answers grow 24 → 48 → 72: every update uses the answer given at that update -/
+example : ((runLoop (initSims (configure 0 240 24 0) 2 (fun _ => [some 24]))
+    [([], fun _ => [some 48]), ([], fun _ => [some 72]), ([], fun _ => [some 24])]).1.sims.map (·.step)) = [24, 24] ∧
+    ((runLoop (initSims (configure 0 240 24 0) 2 (fun _ => [some 24]))
+    [([], fun _ => [some 48]), ([], fun _ => [some 72])]).2) = [(0, 24, [0, 1]), (24, 72, [0, 1])] := by decide
+/-- the same request twice before the update, and once more after the simulant was parked -/
+example : moveToEnd (moveToEnd demo [0]) [0] = moveToEnd demo [0] ∧
+    (iterate (iterate demo [.toEnd [0], .toEnd [0]] (fun _ => [none])) [.toEnd [0]] (fun _ => [none])).sims.map (·.next) =
+    (iterate (iterate demo [.toEnd [0]] (fun _ => [none])) [] (fun _ => [none])).sims.map (·.next) := by decide
 example : (runLoop demo [([], fun _ => [some 24]), ([.birth 1], fun _ => [some 48])]).2 =
     [(0, 24, [1]), (24, 48, [1, 2])] := by decide
 
